@@ -458,6 +458,7 @@ type bConn struct {
 	broken bool // action "breakout": nothing the broker sends arrives any more; not compared, no barrier
 	c      net.Conn
 	srv    *eofJoinConn // the broker's side of the pipe
+	half   *halfConn    // ... of a raw connection (fault sequences, keep-alive schedules)
 	svc    uint64
 	closed bool
 	q1ids  []int // identifiers of QoS 1 / QoS 2 deliveries this client has not answered yet
